@@ -857,6 +857,15 @@ impl Engine {
             s.push_str(&format!("(assert (=> (= {} 1.0) (= n{} 1.0)))\n", nm(x), i));
             s.push_str(&format!("(assert (=> (> {} 0.0) (> n{} 0.0)))\n", nm(x), i));
             s.push_str(&format!("(assert (=> (= {} 1.0) (= n{} {})))\n", nm(y), i, nm(x)));
+            // constant exponents -1, -1/2, 1/2, 2, -2 on a positive base: x^-1 x = 1, (x^-1/2)^2 x = 1, (x^1/2)^2 = x, x^2 = x x, x^-2 x x = 1
+            if let Node::Const(r) = &self.nodes[y as usize] {
+                let (xs, n) = (nm(x), format!("n{}", i));
+                if *r == Rat::int(-1) { s.push_str(&format!("(assert (=> (> {} 0.0) (= (* {} {}) 1.0)))\n", xs, n, xs)); }
+                else if *r == Rat::new(-1, 2).unwrap() { s.push_str(&format!("(assert (=> (> {} 0.0) (= (* {} (* {} {})) 1.0)))\n", xs, n, n, xs)); }
+                else if *r == Rat::new(1, 2).unwrap() { s.push_str(&format!("(assert (=> (>= {} 0.0) (and (>= {} 0.0) (= (* {} {}) {}))))\n", xs, n, n, n, xs)); }
+                else if *r == Rat::int(2) { s.push_str(&format!("(assert (= {} (* {} {})))\n", n, xs, xs)); }
+                else if *r == Rat::int(-2) { s.push_str(&format!("(assert (=> (> {} 0.0) (= (* {} (* {} {})) 1.0)))\n", xs, n, xs, xs)); }
+            }
         }
         for &(i1, x1, y1) in &pows { for &(i2, x2, y2) in &pows {
             if i1 != i2 && y1 == y2 {
@@ -991,6 +1000,11 @@ impl Engine {
                             work.push((fam.clone(), tu, tid));
                         } else if c == Rat::int(-1) {
                             out.push_str(&format!("(assert (= {} (- {})))\n(assert (= {} {}))\n", f1, st, f2, ct));
+                            work.push((fam.clone(), tu, tid));
+                        } else if c == Rat::int(-2) {
+                            // sin(-2t) = -2 sin t cos t, cos(-2t) = cos^2 t - sin^2 t (hyperbolic: cosh^2 + sinh^2)
+                            let cg = if fam == Fam::Trig { "-" } else { "+" };
+                            out.push_str(&format!("(assert (= {} (- (* 2.0 (* {} {})))))\n(assert (= {} ({} (* {} {}) (* {} {}))))\n", f1, st, ct, f2, cg, ct, ct, st, st));
                             work.push((fam.clone(), tu, tid));
                         }
                     }
